@@ -31,16 +31,22 @@ def he_specs(ctx):
 def checks(ctx, rep):
     if getattr(ctx, "_c15_extra", True) and not getattr(ctx, "_replaying", False):
         runlevel.with_extra(ctx, "c15he", lambda: he_specs(ctx))
+        # runs with LinAlgError injected into GP.fit (C16's pool): the surrogate must stay conditioned on the selected set through the retries
+        from . import c16
+        _meta, faulted = c16.fault_pool(ctx)
+        ctx._pool = list(ctx._pool) + [t for t in faulted if "tracer_error" not in t]
     traces = runlevel.get_pool(ctx)
     reqs, owners = [], []
     stats = {"runs": 0, "neigh": 0, "gpadd": 0, "acq": 0, "neigh_truncated": 0, "noise_sets": 0, "repeated_point_logs": 0, "per_coord_len_scale": 0,
-             "merged_adds": 0}
+             "merged_adds": 0, "localfits": 0, "localfits_in_faulted_runs": 0}
     for t in traces:
         if not t["constructed"]:
             continue
         sp = t["spec"]
         tag = runlevel.spec_tag(sp)
         case = {"kind": "gp_run", "spec": sp}
+        if t.get("gp_faults"):
+            case["gp_faults"] = t["gp_faults"]
         stats["runs"] += 1
         D = t["hdr"]["D"]
         reported = set()
@@ -48,8 +54,20 @@ def checks(ctx, rep):
             if clause not in reported:
                 reported.add(clause)
                 rep.violation(clause, site, msg + "; " + tag, case)
+        last_neigh = None
         for k, e in t["events"]:
+            if k == "LOCALFIT":
+                stats["localfits"] += 1
+                stats["localfits_in_faulted_runs"] += bool(t.get("gp_faults"))
+                if last_neigh is not None:
+                    a = sorted((tuple(r), y) for r, y in zip(last_neigh["X"], last_neigh["Y"]))
+                    b = sorted((tuple(r), y) for r, y in zip(e["X"], e["y"]))
+                    if a != b:
+                        viol("fitted_on_selected_set", "gaussian_process_train.py:local_gp_fitting",
+                             f"the surrogate returned by the local fit holds {len(b)} training pairs, the selected neighbourhood of the incumbent has {len(a)}"
+                             + (f" (LinAlgError injected at GP.fit invocations {t.get('gp_faults')})" if t.get("gp_faults") else ""))
             if k == "NEIGH":
+                last_neigh = e
                 stats["neigh"] += 1
                 n = e["n_log"]
                 logX, logY, logS = e["logX"], e["logY"], e["logS"]
@@ -166,7 +184,7 @@ def run(ctx):
 def replay(ctx, data):
     rep = Report()
     from .. import tracer
-    ctx._pool = [tracer.run_traced(data["case"]["spec"])]
+    ctx._pool = [tracer.run_traced(data["case"]["spec"], gp_faults=data["case"].get("gp_faults"))]
     ctx._replaying = True
     checks(ctx, rep)
     return rep
